@@ -90,33 +90,57 @@ func runC38(c *core.Ctx) {
 			return ok2 && f2 == "Header" && ir.Strip(bb) == ssa.Value(blockP)
 		}
 		var appends, evicts, bumps, inits []*ssa.Store
-		for _, st := range storesToField(fn, recv, "blocks") {
-			switch x := st.Val.(type) {
-			case *ssa.Call:
-				if b, ok := x.Common().Value.(*ssa.Builtin); ok && b.Name() == "append" && selfField(x.Common().Args[0], recv, "blocks") {
-					appends = append(appends, st)
-					continue
+		// classify the writes of one function (AddBlock, or a helper of the same object it calls)
+		classify := func(host *ssa.Function, r *ssa.Parameter) {
+			for _, st := range storesToField(host, r, "blocks") {
+				switch x := st.Val.(type) {
+				case *ssa.Call:
+					if b, ok := x.Common().Value.(*ssa.Builtin); ok && b.Name() == "append" && selfField(x.Common().Args[0], recv, "blocks") {
+						appends = append(appends, st)
+						continue
+					}
+				case *ssa.Slice:
+					if k, ok := ir.ConstInt(x.Low); ok && k == 1 && x.High == nil && selfField(x.X, recv, "blocks") {
+						evicts = append(evicts, st)
+						continue
+					}
 				}
-			case *ssa.Slice:
-				if k, ok := ir.ConstInt(x.Low); ok && k == 1 && x.High == nil && selfField(x.X, recv, "blocks") {
-					evicts = append(evicts, st)
-					continue
-				}
+				c.Violate("C38.addblock", fn, "every write to blocks is the append or the one-block eviction", c.P.Rel(st.Pos()), "unrecognised write")
 			}
-			c.Violate("C38.addblock", fn, "every write to blocks is the append or the one-block eviction", c.P.Rel(st.Pos()), "unrecognised write")
+			for _, st := range storesToField(host, r, "baseHeight") {
+				if b, ok := st.Val.(*ssa.BinOp); ok && b.Op == token.ADD && selfField(b.X, recv, "baseHeight") {
+					if k, okk := ir.ConstInt(b.Y); okk && k == 1 {
+						bumps = append(bumps, st)
+						continue
+					}
+				}
+				if isBlockHeight(st.Val) {
+					inits = append(inits, st)
+					continue
+				}
+				c.Violate("C38.addblock", fn, "every write to baseHeight is the initialisation or the +1 bump", c.P.Rel(st.Pos()), "unrecognised write")
+			}
 		}
-		for _, st := range storesToField(fn, recv, "baseHeight") {
-			if b, ok := st.Val.(*ssa.BinOp); ok && b.Op == token.ADD && selfField(b.X, recv, "baseHeight") {
-				if k, okk := ir.ConstInt(b.Y); okk && k == 1 {
-					bumps = append(bumps, st)
+		classify(fn, recv)
+		// the eviction may be a helper of the same validator called from AddBlock
+		evictHost := fn
+		var evictCall *ssa.Call
+		if len(evicts) == 0 {
+			hosts, releaseHosts := hostsWithHelpers(fn)
+			defer releaseHosts()
+			for _, h := range hosts[1:] {
+				cl := callInFn(fn, h)
+				if h.Signature.Recv() == nil || cl == nil || len(cl.Common().Args) == 0 || ir.Strip(cl.Common().Args[0]) != ssa.Value(recv) {
 					continue
 				}
+				if len(storesToField(h, h.Params[0], "blocks")) == 0 {
+					continue
+				}
+				classify(h, h.Params[0])
+				evictHost, evictCall = h, cl
+				c.Attribute(h, fn)
+				break
 			}
-			if isBlockHeight(st.Val) {
-				inits = append(inits, st)
-				continue
-			}
-			c.Violate("C38.addblock", fn, "every write to baseHeight is the initialisation or the +1 bump", c.P.Rel(st.Pos()), "unrecognised write")
 		}
 		c.Floor("append to blocks in AddBlock", len(appends), 1)
 		c.Floor("eviction in AddBlock", len(evicts), 1)
@@ -143,7 +167,19 @@ func runC38(c *core.Ctx) {
 			return true, b.Op == token.EQL
 		})
 		eng.Dominates(c, "C38.addblock", fn, contiguous, storeSinks(appends, "append to blocks"), "append to blocks", nil)
-		eng.Dominates(c, "C38.addblock", fn, contiguous, storeSinks(evicts, "eviction"), "eviction of the oldest block", nil)
+		if evictCall == nil {
+			eng.Dominates(c, "C38.addblock", fn, contiguous, storeSinks(evicts, "eviction"), "eviction of the oldest block", nil)
+		} else {
+			var callSinks []ir.Sink
+			for _, b := range fn.Blocks {
+				for _, in := range b.Instrs {
+					if cl, ok := in.(ssa.CallInstruction); ok && cl.Common().StaticCallee() == evictHost {
+						callSinks = append(callSinks, ir.Sink{Instr: in, Note: "call of the eviction helper"})
+					}
+				}
+			}
+			eng.Dominates(c, "C38.addblock", fn, contiguous, callSinks, "eviction of the oldest block", nil)
+		}
 		full := cmpGuard("len(blocks) >= maxBlocks", func(b *ssa.BinOp) (bool, bool) {
 			if lenOfSelfField(b.X, recv, "blocks") && selfField(b.Y, recv, "maxBlocks") {
 				switch b.Op {
@@ -155,8 +191,22 @@ func runC38(c *core.Ctx) {
 			}
 			return false, false
 		})
-		eng.Dominates(c, "C38.addblock", fn, full, storeSinks(evicts, "eviction"), "eviction of the oldest block", nil)
-		empty := relGuard("len(blocks) == 0", func(v ssa.Value) bool { return lenOfSelfField(v, recv, "blocks") }, isConstInt(0), token.EQL)
+		eng.Dominates(c, "C38.addblock", evictHost, full, storeSinks(evicts, "eviction"), "eviction of the oldest block", nil)
+		isLenBlocks := func(v ssa.Value) bool { return lenOfSelfField(v, recv, "blocks") }
+		empty := cmpGuard("len(blocks) == 0", func(b *ssa.BinOp) (bool, bool) {
+			// a length is never negative: len == 0, len < 1 and len <= 0 are the same test
+			k, isK := ir.ConstInt(b.Y)
+			if !isLenBlocks(b.X) || !isK {
+				return false, false
+			}
+			switch {
+			case b.Op == token.EQL && k == 0, b.Op == token.LSS && k == 1, b.Op == token.LEQ && k == 0:
+				return true, true
+			case b.Op == token.NEQ && k == 0, b.Op == token.GEQ && k == 1, b.Op == token.GTR && k == 0:
+				return true, false
+			}
+			return false, false
+		})
 		eng.Dominates(c, "C38.addblock", fn, empty, storeSinks(inits, "baseHeight = block height"), "base height initialisation", nil)
 		// pairing in the same basic block
 		for _, e := range evicts {
@@ -179,19 +229,41 @@ func runC38(c *core.Ctx) {
 		}
 		// capacity: the append is not reachable on the `full` edge without the eviction
 		{
-			passFull := ir.PassEdges(fn, full.G)
+			passFull := ir.PassEdges(evictHost, full.G)
 			ok := len(passFull) > 0
 			detail := sprintf("%d full edge(s)", len(passFull))
 			for _, e := range passFull {
-				r := ir.NewReach(fn)
+				r := ir.NewReach(evictHost)
 				for _, ev := range evicts {
 					r.Barrier[ev] = true
 				}
 				r.RunFromBlock(e.To())
+				if evictCall == nil {
+					for _, a := range appends {
+						if r.Instr(a) {
+							ok = false
+							detail = "append reachable from the full edge without eviction"
+						}
+					}
+				} else {
+					// the helper does not return from its full edge without evicting …
+					for _, b := range evictHost.Blocks {
+						if ret, isRet := b.Instrs[len(b.Instrs)-1].(*ssa.Return); isRet && r.Instr(ret) {
+							ok = false
+							detail = "the eviction helper returns from its full edge without evicting"
+						}
+					}
+				}
+			}
+			if evictCall != nil {
+				// … and AddBlock calls it on every path to the append
+				r := ir.NewReach(fn)
+				r.Barrier[evictCall] = true
+				r.Run(nil)
 				for _, a := range appends {
 					if r.Instr(a) {
 						ok = false
-						detail = "append reachable from the full edge without eviction"
+						detail = "append reachable without calling the eviction helper"
 					}
 				}
 			}
@@ -296,7 +368,7 @@ func runC38(c *core.Ctx) {
 		c.Floor("scan loop in Verify", len(loops), 1)
 		for _, lp := range loops {
 			cmp := lp.Cond.Cond.(*ssa.BinOp)
-			idx := cmp.X.(*ssa.Phi)
+			idx := lp.Index
 			okInit, okStep := false, false
 			for i, e := range idx.Edges {
 				pred := idx.Block().Preds[i]
@@ -377,20 +449,34 @@ func runC38(c *core.Ctx) {
 	if fn := c.Fn("validator/stateful", "validator.Receive"); fn != nil {
 		ict := eng.Obj(c, "core/ledger", "Ledger.IsContainTransaction")
 		if ict != nil {
+			// the query stands in Receive or in a same-package helper whose result is the code sent
+			host := fn
+			var hostCall *ssa.Call
 			calls := ir.CallsTo(fn, ict)
+			if len(calls) == 0 {
+				hosts, releaseHosts := hostsWithHelpers(fn)
+				defer releaseHosts()
+				for _, h := range hosts[1:] {
+					if cs := ir.CallsTo(h, ict); len(cs) > 0 && h.Signature.Results().Len() == 1 {
+						host, calls, hostCall = h, cs, callInFn(fn, h)
+						c.Attribute(h, fn)
+						break
+					}
+				}
+			}
 			c.Floor("IsContainTransaction in stateful Receive", len(calls), 1)
 			for _, ci := range calls {
 				cl := ci.(*ssa.Call)
 				h := calleeNamed(cl.Common().Args[len(cl.Common().Args)-1], "Hash")
 				okArg := false
 				if h != nil {
-					if _, f, ok := fieldLoad(h.Common().Args[0]); ok && f == "Tx" {
+					if _, f, ok := fieldLoad(ir.Strip(h.Common().Args[0])); ok && f == "Tx" {
 						okArg = true
 					}
 				}
 				c.Decide(okArg, "C38.stateful", fn, "ledger membership is queried for msg.Tx.Hash()", c.P.Rel(cl.Pos()), "")
-				// ErrCode stored in the response is a phi: exist→ErrDuplicatedTx, err→ErrUnknown, else ErrNoError
-				var errPhi *ssa.Phi
+				// the ErrCode stored in the response: exist→ErrDuplicatedTx, err→ErrUnknown, else ErrNoError
+				var stored ssa.Value
 				for _, b := range fn.Blocks {
 					for _, in := range b.Instrs {
 						st, ok := in.(*ssa.Store)
@@ -398,24 +484,51 @@ func runC38(c *core.Ctx) {
 							continue
 						}
 						if fa, ok := st.Addr.(*ssa.FieldAddr); ok && fieldNameOf(fa) == "ErrCode" {
-							if p, isPhi := st.Val.(*ssa.Phi); isPhi {
-								errPhi = p
-							}
+							stored = st.Val
 						}
 					}
 				}
-				if errPhi == nil {
-					c.Broken("C38.stateful", fn, "ErrCode of the CheckResponse", c.P.Rel(fn.Pos()), "phi not found")
+				type leaf struct {
+					pred, join *ssa.BasicBlock
+					v          ssa.Value
+				}
+				var leaves []leaf
+				var pos token.Pos
+				var expand func(v ssa.Value, pred, join *ssa.BasicBlock, depth int)
+				expand = func(v ssa.Value, pred, join *ssa.BasicBlock, depth int) {
+					if p, isPhi := v.(*ssa.Phi); isPhi && depth < 4 {
+						for i, e := range p.Edges {
+							expand(e, p.Block().Preds[i], p.Block(), depth+1)
+						}
+						return
+					}
+					leaves = append(leaves, leaf{pred, join, v})
+				}
+				if hostCall == nil {
+					if p, isPhi := stored.(*ssa.Phi); isPhi {
+						pos = p.Pos()
+						expand(p, nil, nil, 0)
+					}
+				} else if stored != nil && ir.Strip(stored) == ssa.Value(hostCall) {
+					pos = hostCall.Pos()
+					for _, b := range host.Blocks {
+						if ret, isRet := b.Instrs[len(b.Instrs)-1].(*ssa.Return); isRet && len(ret.Results) == 1 {
+							expand(ret.Results[0], b, nil, 0)
+						}
+					}
+				}
+				if len(leaves) == 0 {
+					c.Broken("C38.stateful", fn, "ErrCode of the CheckResponse", c.P.Rel(fn.Pos()), "the code sent is not decided from the ledger query")
 					continue
 				}
 				want := map[string]string{}
-				for i, e := range errPhi.Edges {
-					k, okk := ir.ConstInt(e)
-					if !okk {
+				for _, lf := range leaves {
+					k, okk := ir.ConstInt(lf.v)
+					if !okk || lf.pred == nil {
 						want["?"] = "non-constant"
 						continue
 					}
-					pred := errPhi.Block().Preds[i]
+					pred := lf.pred
 					// classify the predecessor by the dominating tests on the call's results
 					cls := "fallthrough"
 					for a := pred; a != nil; a = a.Idom() {
@@ -429,7 +542,7 @@ func runC38(c *core.Ctx) {
 						onTrue := len(a.Succs) == 2 && (a.Succs[0] == pred || (a.Succs[0].Dominates(pred) && len(a.Succs[0].Preds) == 1))
 						if a == pred {
 							// edge directly from the If block to the phi block
-							onTrue = a.Succs[0] == errPhi.Block()
+							onTrue = a.Succs[0] == lf.join
 						}
 						if x, neq, ok := ir.NilCmp(iff.Cond); ok {
 							if c2, idx := ir.CallOf(x); c2 == cl && idx == 1 {
@@ -448,13 +561,16 @@ func runC38(c *core.Ctx) {
 							break
 						}
 					}
+					if old, had := want[cls]; had && old != sprintf("%d", k) {
+						want["?"] = "two codes for " + cls
+					}
 					want[cls] = sprintf("%d", k)
 				}
 				dup, _ := c.P.Const(ir.Mod+"/errors", "ErrDuplicatedTx")
 				unk, _ := c.P.Const(ir.Mod+"/errors", "ErrUnknown")
 				noe, _ := c.P.Const(ir.Mod+"/errors", "ErrNoError")
 				ok := dup != nil && unk != nil && noe != nil && want["exist"] == dup.ExactString() && want["err!=nil"] == unk.ExactString() && want["not-exist"] == noe.ExactString() && len(want) == 3
-				c.Decide(ok, "C38.stateful", fn, "response ErrCode = {exist: ErrDuplicatedTx, query error: ErrUnknown, otherwise ErrNoError}", c.P.Rel(errPhi.Pos()), sprintf("%v", want))
+				c.Decide(ok, "C38.stateful", fn, "response ErrCode = {exist: ErrDuplicatedTx, query error: ErrUnknown, otherwise ErrNoError}", c.P.Rel(pos), sprintf("%v", want))
 			}
 		}
 	}
